@@ -303,6 +303,56 @@ def scramble(obj, depth=5, _seen=None):
             pass
 
 
+def unfolded_size(obj, cap=10 ** 6):
+    """number of nodes of the TREE a cell / slice / builder unfolds to (what a recursive printer walks), saturating at cap;
+    iterative, so depth-1023 chains are fine"""
+    size = {}
+    stack = [(obj, False)]
+    while stack:
+        o, done = stack.pop()
+        if id(o) in size:
+            continue
+        kids = list(getattr(o, 'refs', None) or [])
+        if done:
+            size[id(o)] = min(cap, 1 + sum(size.get(id(k), 1) for k in kids))
+        else:
+            stack.append((o, True))
+            stack.extend((k, False) for k in kids if id(k) not in size)
+    return size[id(obj)]
+
+
+def describe(*objs, cap=3000):
+    """What a caller's logging / debugging does with objects it holds: repr(), str(), format(), an f-string, ascii(), bool().
+    Formatting or looking at an object is not an operation ON it: whatever a check observes afterwards must be what it would have
+    observed without it. Results and exceptions are ignored (a printer may fail on a deep chain - that is nobody's property).
+    A library cell prints its whole tree once per path, so str() is only called when the object unfolds to at most `cap` nodes."""
+    n = 0
+    for o in objs:
+        fs = [repr, ascii, lambda x: f'{x!r:>3}', bool]
+        if unfolded_size(o, cap + 1) <= cap:
+            fs += [str, format, lambda x: f'{x}', lambda x: '%s' % (x,)]
+        for f in fs:
+            try:
+                f(o)
+            except Exception:
+                pass
+            n += 1
+    return n
+
+
+def look(obj, cap=3000):
+    """exactly ONE str() and one repr() of an object (see describe): for effects that a second formatting would undo"""
+    try:
+        repr(obj)
+    except Exception:
+        pass
+    if unfolded_size(obj, cap + 1) <= cap:
+        try:
+            str(obj)
+        except Exception:
+            pass
+
+
 def _shard_worker(args):
     prop_id, sub_name, shard, nshards, tier, seed, shrink_s = args
     import importlib
